@@ -6,7 +6,6 @@ import (
 	"github.com/nyaruka/gocommon/jsonx"
 	"github.com/nyaruka/goflow/assets"
 	"github.com/nyaruka/goflow/envs"
-	"github.com/nyaruka/goflow/excellent/types"
 	"github.com/nyaruka/goflow/flows"
 	"github.com/nyaruka/goflow/flows/events"
 	"github.com/nyaruka/goflow/utils"
@@ -40,17 +39,9 @@ func NewField(field *flows.Field, value string) *FieldModifier {
 func (m *FieldModifier) Apply(eng flows.Engine, env envs.Environment, sa flows.SessionAssets, contact *flows.Contact, log flows.EventCallback) bool {
 	oldValue := contact.Fields().Get(m.field)
 
-	newValue := contact.Fields().Parse(env, sa.Fields(), m.field, m.value)
-
-	// truncate text value if necessary
-	if newValue != nil {
-		newValue.Text = types.NewXText(utils.Truncate(newValue.Text.Native(), eng.Options().MaxFieldChars))
-
-		// a value truncated to nothing is no value: it would not be stored, so it must not be announced either
-		if newValue.Text.Native() == "" {
-			newValue = nil
-		}
-	}
+	// the stored text is limited in length, and the typed values have to be those of the stored text: a number or
+	// date read from the part that is cut off would not be what the text says. A value truncated to nothing is no value.
+	newValue := contact.Fields().Parse(env, sa.Fields(), m.field, utils.Truncate(m.value, eng.Options().MaxFieldChars))
 
 	if !newValue.Equals(oldValue) {
 		contact.Fields().Set(m.field, newValue)
